@@ -154,3 +154,102 @@ func vxH_C10_iterAgree() {
 	it.Close()
 	snap.Close()
 }
+
+func init() { vxRegister("vxH_C10_copyOut", vxH_C10_copyOut) }
+
+// vxFirstMO is a merge operator that allocates nothing: the existing value
+// wins, otherwise the first operand (first-write-wins; "max"/"min"
+// operators have the same shape). Whatever it returns aliases its inputs.
+type vxFirstMO struct{}
+
+func (vxFirstMO) Name() string { return "vxFirstMO" }
+
+func (vxFirstMO) FullMerge(key, existing []byte, operands [][]byte) ([]byte, bool) {
+	if existing != nil {
+		return existing, true
+	}
+	if len(operands) > 0 {
+		return operands[0], true
+	}
+	return nil, true
+}
+
+func (vxFirstMO) PartialMerge(key, l, r []byte) ([]byte, bool) { return l, true }
+
+// vxH_C10_copyOut: values returned by copying Gets (Collection.Get,
+// Snapshot.Get, store Snapshot.Get) are read again after the snapshots, the
+// collection and the store are closed: they are intact. The key's base
+// value is persisted (optionally by an earlier session, so it is only in
+// the mapped file); on top of it sits nothing, a Set, a Merge (under the
+// allocation-free operator) or a Del, merged / persisted or not.
+func vxH_C10_copyOut() {
+	fs := vxNewFS()
+	so := vxStoreOptions(fs)
+	so.CollectionOptions.MergeOperator = vxFirstMO{}
+	so.CollectionOptions.CachePersisted = vxChoose(2) == 1
+	po := StorePersistOptions{CompactionConcern: CompactionConcern(vxChoose(3))}
+	store, coll, err := OpenStoreCollection(fs.dir, so, po)
+	vxAssert("open-ok", err == nil)
+	kb := []byte{'k'}
+	v0 := vxU8()
+	b, _ := coll.NewBatch(1, 8)
+	b.Set(kb, []byte{v0, v0})
+	vxAssert("executebatch-ok", coll.ExecuteBatch(b, WriteOptions{}) == nil)
+	b.Close()
+	vxDrain(coll)
+	if vxChoose(2) == 1 {
+		coll.Close()
+		store.Close()
+		vxQuiesce()
+		store, coll, err = OpenStoreCollection(fs.dir, so, po)
+		vxAssert("reopen-ok", err == nil)
+	}
+	op := vxChoose(4) // 0 nothing, 1 Set, 2 Merge, 3 Del
+	if op != 0 {
+		b, _ = coll.NewBatch(1, 8)
+		switch op {
+		case 1:
+			b.Set(kb, []byte{vxU8()})
+		case 2:
+			b.Merge(kb, []byte{vxU8()})
+		case 3:
+			b.Del(kb)
+		}
+		vxAssert("executebatch-ok", coll.ExecuteBatch(b, WriteOptions{}) == nil)
+		b.Close()
+		switch vxChoose(3) {
+		case 1:
+			coll.(*collection).NotifyMerger("go", true)
+		case 2:
+			vxDrain(coll)
+		}
+	}
+	snap, serr := coll.Snapshot()
+	vxAssert("snapshot-ok", serr == nil)
+	ssnap, sserr := store.Snapshot()
+	vxAssert("store-snapshot-ok", sserr == nil)
+	var got, want [3][]byte
+	got[0], err = coll.Get(kb, ReadOptions{})
+	vxAssert("collection-get-ok", err == nil)
+	got[1], err = snap.Get(kb, ReadOptions{})
+	vxAssert("snapshot-get-ok", err == nil)
+	got[2], err = ssnap.Get(kb, ReadOptions{})
+	vxAssert("store-snapshot-get-ok", err == nil)
+	for i := range got {
+		if got[i] != nil {
+			want[i] = append([]byte{}, got[i]...)
+		}
+	}
+	vxAssert("collection-and-snapshot-agree", (got[0] == nil) == (got[1] == nil) && vxBytesEq(got[0], got[1]))
+	snap.Close()
+	ssnap.Close()
+	coll.Close()
+	store.Close()
+	vxQuiesce()
+	vxObserveInt("mappings-left", fs.liveRegions())
+	for i := range got {
+		if got[i] != nil {
+			vxAssert("copied-value-intact-after-close", vxBytesEq(got[i], want[i]))
+		}
+	}
+}
